@@ -29,7 +29,7 @@ from prosemirror.transform import (
     structure,
 )
 from prosemirror.transform.replace import replace_step
-from prosemirror.utils import JSON, Attrs
+from prosemirror.utils import JSON, Attrs, text_length
 
 from .doc_attr_step import DocAttrStep
 
@@ -234,8 +234,10 @@ class Transform:
                                 0,
                                 0,
                             )
+                        # positions count UTF-16 code units, match offsets code points
+                        start = cur + text_length(child.text[: m.start()])
                         repl_steps.append(
-                            ReplaceStep(cur + m.start(), cur + m.end(), slice),
+                            ReplaceStep(start, start + len(m.group(0)), slice),
                         )
                         m = newline.search(child.text, m.end())
             cur = end
